@@ -62,6 +62,14 @@ macro_rules! dispatch {
                 let $p = &props::parsers::C04;
                 $body
             }
+            "C08" => {
+                let $p = &props::locate::C08;
+                $body
+            }
+            "C09p" => {
+                let $p = &props::peer::C09Peer;
+                $body
+            }
             "C13" => {
                 let $p = &props::scan::C13;
                 $body
@@ -92,7 +100,8 @@ fn components(property: &str) -> Vec<&'static str> {
         "C01" => vec!["C01"],
         "C04" => vec!["C04"],
         "C02" => vec!["C02"],
-        "C09" => vec!["C09r"],
+        "C08" => vec!["C08"],
+        "C09" => vec!["C09p", "C09r"],
         "C11" => vec!["C11"],
         "C13" => vec!["C13"],
         "C16" => vec!["C16"],
